@@ -61,6 +61,19 @@ def run(ctx):
                 ctx.bad('C10.1-capture', inst, 'raw bytes are not start[..8 + consumed-by-nested-term] / fields not carried from the nested term (%s)' % detail, ctx.where(B, bb),
                         key='PROV:%sparse_local_ext:%s:capture' % (DEC, var))
 
+    # every way out of parse_local_ext goes through the match that re-attaches the envelope
+    if B is not None:
+        sw = [bb for bb in sorted(B.live_blocks()) if (lambda sd: sd and sd[1].replace('&', '') == OWNED and 'parse_term' in str(B.origin_place(sd[0])))(B.switch_on_discr(bb))]
+        oks = [bb for bb, j, st in B.stmts() if st['k'] == '=' and st['pl']['l'] == 0 and not st['pl'].get('p') and st['rv']['k'] == 'agg' and st['rv'].get('var') == 'Ok']
+        if ctx.anchor(bool(sw) and bool(oks), DEC + 'parse_local_ext: match on the nested term / Ok returns'):
+            early = [bb for bb in oks if not any(B.block_dominates(s_, bb) for s_ in sw)]
+            if early:
+                ctx.bad('C10.1-capture', 'all-returns', '%d of the %d successful returns of parse_local_ext do not pass the match on the nested term that re-attaches the raw bytes: an identifier that leaves that way '
+                        '(decided by something other than the decoded term itself, e.g. a peek at the nested tag) loses its node-local form' % (len(early), len(oks)), ctx.where(B, early[0]),
+                        key='DOM:%sparse_local_ext:return-bypasses-capture' % DEC)
+            else:
+                ctx.ok('C10.1-capture', 'all-returns', 'every successful return is dominated by the match on the nested term', ctx.where(B, sw[0]))
+
     # ---------------- clause 2: replay ----------------------------------------------------------------
     ctx.rule('C10.2-replay', 'when raw node-local bytes are present the encoder writes exactly LOCAL_EXT followed by those bytes', floor=3)
     for var, fn in (('Pid', 'encode_pid_impl'), ('Port', 'encode_port_impl'), ('Reference', 'encode_reference_impl')):
